@@ -10,8 +10,10 @@ package netstate
 // have been put into it.
 
 import (
+	"context"
 	"fmt"
 	"runtime"
+	"sync"
 	"sync/atomic"
 	"testing"
 	"time"
@@ -22,9 +24,13 @@ import (
 func TestVerifC19Parallel(t *testing.T) {
 	out := verifh.Open()
 	defer out.Close()
-	if !out.Wants("c19-parallel") {
-		return
+	if out.Wants("c19-parallel") {
+		c19ParallelConsumer(out)
 	}
+	c19ParallelSubscribe(out)
+}
+
+func c19ParallelConsumer(out *verifh.Out) {
 	c := verifh.Case{ID: "c19-parallel", Input: map[string]any{"kind": "parallel-consumer"}, Tags: []string{"stream:parallel-consumer"}}
 	if runtime.GOMAXPROCS(0) < 2 {
 		c.Tags = append(c.Tags, "parallel:unavailable")
@@ -94,4 +100,62 @@ func TestVerifC19Parallel(t *testing.T) {
 		c.Tags = append(c.Tags, "parallel:conclusive")
 	}
 	out.Emit(c)
+}
+
+func c19ParallelSubscribe(out *verifh.Out) {
+	// ---- first subscriptions for one and the same interface made at the same moment by several goroutines (tasks
+	// starting side by side): every one of them receives the next change and sees its channel closed at the end
+	if out.Wants("c19-parallel-subscribe") {
+		var viol string
+		rounds := 3000
+		if verifh.Thorough() {
+			rounds = 30000
+		}
+		for r := 0; r < rounds && viol == ""; r++ {
+			w := NewWatcher()
+			const k = 8
+			chans := make([]<-chan Change, k)
+			start := make(chan struct{})
+			var wg sync.WaitGroup
+			for i := 0; i < k; i++ {
+				wg.Add(1)
+				go func(i int) {
+					defer wg.Done()
+					<-start
+					chans[i] = w.Subscribe("fresh0", LinkAny)
+				}(i)
+			}
+			close(start)
+			wg.Wait()
+			w.notify(changeSet{"fresh0": []Change{LinkDown}})
+			for i, ch := range chans {
+				select {
+				case v := <-ch:
+					if v != LinkDown {
+						viol = fmt.Sprintf("round %d: subscriber %d received %v, want link down", r, i, v)
+					}
+				default:
+					viol = fmt.Sprintf("round %d: subscriber %d of %d that subscribed to a new interface at the same moment received nothing", r, i, k)
+				}
+			}
+			ctx, cancel := context.WithCancel(context.Background())
+			cancel()
+			w.watch = func(ctx context.Context, _ func(changeSet)) error { <-ctx.Done(); return nil }
+			_ = w.Watch(ctx)
+			for i, ch := range chans {
+				select {
+				case _, ok := <-ch:
+					if ok && viol == "" {
+						viol = fmt.Sprintf("round %d: subscriber %d received a second value", r, i)
+					}
+				default:
+					if viol == "" {
+						viol = fmt.Sprintf("round %d: the channel of subscriber %d is not closed after the end of the watch", r, i)
+					}
+				}
+			}
+		}
+		out.Emit(verifh.Case{ID: "c19-parallel-subscribe", Input: map[string]any{"kind": "parallel-subscribe", "rounds": rounds},
+			Observed: "ok", Tags: []string{"stream:parallel-subscribe"}, ImplViolation: viol})
+	}
 }
